@@ -32,6 +32,19 @@ fn discard_at(x: usize, y: usize, m: usize) -> bool {
     (x + y) % m == 0
 }
 
+/// Selects render_clip's entry point for the lifetime of the guard.
+struct DoorGuard(bool);
+impl DoorGuard {
+    fn set(on: bool) -> Self {
+        DoorGuard(super::scene::set_batch_door(on))
+    }
+}
+impl Drop for DoorGuard {
+    fn drop(&mut self) {
+        super::scene::set_batch_door(self.0);
+    }
+}
+
 struct Outcome {
     col: Vec<u32>,
     z: Vec<u32>,
@@ -153,6 +166,16 @@ fn masks_case(rng: &mut Rng, rep: &mut Report, idx: u64) {
         calls.insert(at, vec![]);
         rep.count("calls.with_an_empty_triangle_list");
     }
+    // every third scene goes through Batch::render instead of render():
+    // a Batch is "a call" like any other, an empty one included
+    let batch = rng.chance(1, 3);
+    let _door = DoorGuard::set(batch);
+    if batch {
+        rep.count("calls.through_batch");
+        if calls.iter().any(|c| c.is_empty()) {
+            rep.count("calls.through_batch_with_an_empty_face_list");
+        }
+    }
     let pieces: Vec<(usize, bool)> = fl.sc.tris.iter().map(|t| clip_pieces(&fl, t)).collect();
     // Face culling crossed with the masks: one cull mode per scene. A culled
     // triangle contributes nothing at all (no fragments, no writes, not
@@ -199,7 +222,7 @@ fn masks_case(rng: &mut Rng, rep: &mut Report, idx: u64) {
                         };
                         // the model
                         let (mut exp_fi, mut exp_fo, mut exp_inv) = (0usize, 0usize, 0usize);
-                        let cfgs = format!("target={} face_cull={cull:?} depth_test={dt:?} color_write={cw} depth_write={dw} discard={discard:?} calls={}", tk.name(), calls.len());
+                        let cfgs = format!("door={} target={} face_cull={cull:?} depth_test={dt:?} color_write={cw} depth_write={dw} discard={discard:?} calls={}", if batch { "Batch::render" } else { "render()" }, tk.name(), calls.len());
                         for p in 0..npx {
                             let (x, y) = (p % fl.w as usize, p / fl.w as usize);
                             let (mut c, mut z) = (COL_SENT, prior_z[p]);
@@ -470,7 +493,7 @@ fn cull_stats_case(rng: &mut Rng, rep: &mut Report) {
 }
 
 pub fn run(cfg: &Cfg, rep: &mut Report) {
-    rep.rule = "masks: case = one scene of 1..5 triangles × {Framebuf, colour-only} × depth_test {None,Less,Equal,Greater} × color_write × depth_write × {discarding, non-discarding shader} × {one, two render() calls on one Context}; culling: case = one triangle in both vertex orders × face_cull {None,Back,Front}; cull-stats: 2..6 triangles × {Back,Front}; non-trivial = produces fragments; distinct by scene hash".into();
+    rep.rule = "masks: case = one scene of 1..5 triangles × {Framebuf, colour-only} × depth_test {None,Less,Equal,Greater} × color_write × depth_write × {discarding, non-discarding shader} × {one, two calls on one Context, a third of the scenes through Batch::render}; culling: case = one triangle in both vertex orders × face_cull {None,Back,Front}; cull-stats: 2..6 triangles × {Back,Front}; non-trivial = produces fragments; distinct by scene hash".into();
     rep.assumptions.push("layers are solo renders of the same rasteriser (their correctness is C01/C04/C05's subject); pixels a triangle's own clip fan draws twice are excluded from the pixel model and fragment counts of such scenes are not compared".into());
     rep.assumptions.push("orientation oracle: back-facing on screen ⇔ det[x;y;w] > 0 (counter-clockwise in NDC) for an unmirrored viewport, reversed when exactly one viewport axis is mirrored; |det| < 1e-4·scale³ is skipped".into());
     rep.run_stream(cfg, 0, "masks_and_stats", cfg.n(8_000, 600_000), |rng, i, rep| masks_case(rng, rep, i));
@@ -481,6 +504,8 @@ pub fn run(cfg: &Cfg, rep: &mut Report) {
     rep.floor("masks.face_cull_front", 800);
     rep.floor("masks.scenes_with_some_triangles_culled_and_some_drawn", 500);
     rep.floor("calls.with_an_empty_triangle_list", 800);
+    rep.floor("calls.through_batch", 1000);
+    rep.floor("calls.through_batch_with_an_empty_face_list", 200);
     rep.floor("prior_depth.special(±inf, -0.0, -1e30)", 800);
     rep.floor("stats.fragment_counts_checked", 40_000);
     rep.floor("culling.visible_triangles", 10_000);
